@@ -26,13 +26,19 @@ fn u16be(l: &[u16]) -> String {
     s
 }
 
-/// one random history on `m` (mutated along to stay consistent); returns the edit tokens
-fn gen_history(rng: &mut Rng, m: &mut GModel, huge: bool) -> Vec<String> {
+/// one random history on `m` (mutated along to stay consistent); returns the edit tokens.
+/// `free`: the "free layout" family (`editfree`, correspondence only — see notes/C07.md): every round
+/// lays the meshes of the LOD out in the index buffer in an order of its own (a permutation of the
+/// mesh order) and / or with gaps between them (starts aligned to 8 index words as in shipped
+/// files, or arbitrary); ranges stay pairwise disjoint and every mesh's sub-meshes contiguous.
+/// Shape tables are removed first and no shape mesh is added (their values count from the mesh's
+/// start, whose meaning the specification only fixes for mesh-order layouts).
+fn gen_history(rng: &mut Rng, m: &mut GModel, huge: bool, free: bool) -> Vec<String> {
     let mut huge = huge;
     let mut toks = Vec::new();
     let has_shape_tables = !m.shm.is_empty() || !m.shv.is_empty();
     let mut shapes_removed = false;
-    if has_shape_tables && rng.chance(9, 10) || rng.chance(1, 5) {
+    if if free { has_shape_tables } else { has_shape_tables && rng.chance(9, 10) || rng.chance(1, 5) } {
         toks.push("rs=1".to_string());
         m.shm.clear();
         m.shv.clear();
@@ -42,15 +48,26 @@ fn gen_history(rng: &mut Rng, m: &mut GModel, huge: bool) -> Vec<String> {
         }
         shapes_removed = true;
     }
-    let rounds = match rng.below(6) {
-        0 => 0,
-        1 | 2 | 3 => 1,
-        4 => 2,
-        _ => 3,
+    let rounds = if free {
+        rng.range(1, 3)
+    } else {
+        match rng.below(6) {
+            0 => 0,
+            1 | 2 | 3 => 1,
+            4 => 2,
+            _ => 3,
+        }
     };
     for _ in 0..rounds {
         let lodn = m.lodn as usize;
-        let l = rng.below(lodn as u64) as usize;
+        let mut l = rng.below(lodn as u64) as usize;
+        if free {
+            // prefer a LOD with at least two meshes (an order to permute)
+            let multi: Vec<usize> = (0..lodn).filter(|&i| m.lods[i].meshes.len() >= 2).collect();
+            if !multi.is_empty() && rng.chance(7, 8) {
+                l = *rng.pick(&multi);
+            }
+        }
         let nm = m.lods[l].meshes.len();
         if nm == 0 {
             continue;
@@ -94,8 +111,33 @@ fn gen_history(rng: &mut Rng, m: &mut GModel, huge: bool) -> Vec<String> {
             new_vc.push(vc);
             new_ni.push(ni);
         }
+        let starts: Vec<usize> = if free {
+            let mut lay: Vec<usize> = (0..nm).collect();
+            for i in (1..nm).rev() {
+                let j = rng.below((i + 1) as u64) as usize;
+                lay.swap(i, j);
+            }
+            if nm >= 2 && lay.iter().enumerate().all(|(i, &d)| i == d) && rng.chance(3, 4) {
+                lay.rotate_left(1); // mesh order only now and then (then with gaps, mostly)
+            }
+            let gaps = rng.below(3); // 0 packed, 1 starts aligned to 8 words, 2 arbitrary gaps
+            let mut pos = 0usize;
+            let mut st = vec![0usize; nm];
+            for &d in &lay {
+                match gaps {
+                    1 => pos = (pos + 7) / 8 * 8,
+                    2 => pos += rng.below(10) as usize,
+                    _ => {}
+                }
+                st[d] = pos;
+                pos += new_ni[d];
+            }
+            st
+        } else {
+            (0..nm).map(|d| new_ni[..d].iter().sum()).collect()
+        };
         for &d in &order {
-            let start: usize = new_ni[..d].iter().sum();
+            let start: usize = starts[d];
             let mesh = &mut m.lods[l].meshes[d];
             let strides: Vec<u8> = mesh.streams.iter().map(|x| x.0).collect();
             let vc = new_vc[d];
@@ -114,7 +156,7 @@ fn gen_history(rng: &mut Rng, m: &mut GModel, huge: bool) -> Vec<String> {
                 prev = end;
             }
             // occasionally supply fewer sub-meshes than the part has (only a prefix is updated)
-            let supplied = if nsub > 1 && rng.chance(1, 10) { &pairs[..1] } else { &pairs[..] };
+            let supplied = if nsub > 1 && !free && rng.chance(1, 10) { &pairs[..1] } else { &pairs[..] };
             toks.push(format!(
                 "rv={}:{}:{}:{}:{}:{}",
                 l,
@@ -136,7 +178,7 @@ fn gen_history(rng: &mut Rng, m: &mut GModel, huge: bool) -> Vec<String> {
         // other LODs keep their layout
     }
     // add shape meshes (only meaningful after the tables were cleared or were empty)
-    if !m.shapes.is_empty() && (shapes_removed || !has_shape_tables) && rng.chance(1, 2) {
+    if !free && !m.shapes.is_empty() && (shapes_removed || !has_shape_tables) && rng.chance(1, 2) {
         let n = rng.range(1, 3);
         let mut smi_of: std::collections::HashMap<(usize, usize), usize> = std::collections::HashMap::new();
         for _ in 0..n {
@@ -172,6 +214,47 @@ fn gen_history(rng: &mut Rng, m: &mut GModel, huge: bool) -> Vec<String> {
         }
     }
     toks
+}
+
+/// a one-call history that keeps the shape tables (wide-table family: all shapes sit on the first
+/// mesh of LOD 0): `replace_vertices` on the last mesh of LOD 0 — any new size when that is not the
+/// first mesh (nothing after it moves), the same vertex / index counts when it is (the stored shape
+/// values stay inside the mesh)
+fn gen_history_keep(rng: &mut Rng, m: &mut GModel) -> Vec<String> {
+    let d = m.lods[0].meshes.len() - 1;
+    let start: usize = m.lods[0].meshes[..d].iter().map(|x| x.indices.len() + x.index_pad).sum();
+    let mesh = &mut m.lods[0].meshes[d];
+    let (vc, ni) = if d == 0 { (mesh.vcount as usize, mesh.indices.len()) } else { (rng.range(0, 60) as usize, rng.below(100) as usize) };
+    let strides: Vec<u8> = mesh.streams.iter().map(|x| x.0).collect();
+    let streams = canonical_streams(rng, &mesh.decl, &strides, vc);
+    let indices: Vec<u16> = (0..ni).map(|_| if vc == 0 { 0 } else { rng.below(vc as u64) as u16 }).collect();
+    let nsub = mesh.subs.len();
+    let mut cuts: Vec<usize> = (0..nsub.saturating_sub(1)).map(|_| rng.below((ni + 1) as u64) as usize).collect();
+    cuts.sort();
+    let mut pairs = Vec::new();
+    let mut prev = 0usize;
+    for i in 0..nsub {
+        let end = if i + 1 == nsub { ni } else { cuts[i] };
+        pairs.push(((start + prev) as u32, (end - prev) as u32));
+        prev = end;
+    }
+    let tok = format!(
+        "rv=0:{}:{}:{}:{}:{}",
+        d,
+        vc,
+        dot_streams(&streams),
+        u16be(&indices),
+        if pairs.is_empty() { "-".to_string() } else { pairs.iter().map(|(o, c)| format!("{}.{}", o, c)).collect::<Vec<_>>().join("/") }
+    );
+    mesh.vcount = vc as u16;
+    mesh.streams = streams;
+    mesh.indices = indices;
+    mesh.index_pad = 0;
+    for (i, (o, c)) in pairs.iter().enumerate() {
+        mesh.subs[i].off = *o;
+        mesh.subs[i].count = *c;
+    }
+    vec![tok]
 }
 
 pub fn generate(thorough: bool, seed: u64, out: &mut dyn Write) {
@@ -211,11 +294,47 @@ pub fn generate(thorough: bool, seed: u64, out: &mut dyn Write) {
                 writeln!(out, "wbytes {} |", base).unwrap();
             }
         } else {
-            let toks = gen_history(&mut rng, &mut m, thorough && i % 100 == 7);
+            let toks = gen_history(&mut rng, &mut m, thorough && i % 100 == 7, false);
             writeln!(out, "edit {} | {}", base, toks.join(" ")).unwrap();
             if i % 10 == 1 {
                 writeln!(out, "wbytes {} | {}", base, toks.join(" ")).unwrap();
             }
+        }
+    }
+    // free-layout histories (correspondence only, expected answer = the supplied geometry)
+    let n = if thorough { 4000 } else { 80 };
+    for i in 0..n {
+        let o = GenOpts {
+            max_meshes: if i % 3 == 0 { 2 } else { 4 },
+            max_vertices: if i % 9 == 0 { 300 } else { 60 },
+            combos: WCOMBOS,
+            v5_only: true,
+            canonical: true,
+        };
+        let mut m = gen_model(&mut rng, &o);
+        let base = m.tokens();
+        let toks = gen_history(&mut rng, &mut m, false, true);
+        writeln!(out, "editfree {} | {}", base, toks.join(" ")).unwrap();
+        if i % 10 == 1 {
+            writeln!(out, "wbytes {} | {}", base, toks.join(" ")).unwrap();
+        }
+    }
+    // wide tables (`c06::gen_wide_opts`, canonical): every table of the runtime block with >= 255 rows /
+    // sizes at 2^16, written unedited, after a history (`update_headers`, `calculate_runtime_size`
+    // over the wide table), and byte-exact
+    for round in 0..if thorough { 30 } else { 1 } {
+        for &kind in WIDE_KINDS_CANONICAL {
+            let fixed = if round == 0 && !thorough && kind != 9 && kind < 12 { Some(*rng.pick(&[256usize, 257, 300])) } else { None };
+            let mut m = gen_wide_opts(&mut rng, kind, fixed, true);
+            let base = m.tokens();
+            match (round + kind) % 3 {
+                0 => writeln!(out, "write {}", base).unwrap(),
+                1 => writeln!(out, "wbytes {} |", base).unwrap(),
+                _ => {}
+            }
+            // shape tables kept (always when they are the wide table) or the ordinary history
+            let toks = if (5..=7).contains(&kind) || rng.chance(1, 2) { gen_history_keep(&mut rng, &mut m) } else { gen_history(&mut rng, &mut m, false, false) };
+            writeln!(out, "{} {} | {}", if (round + kind) % 4 == 3 { "wbytes" } else { "edit" }, base, toks.join(" ")).unwrap();
         }
     }
 }
